@@ -60,7 +60,7 @@ ASSUMPTIONS = [
     "elements needing numpy (NumpyHistogram) and Zip of FillRequest sequences (construction fails on "
     "the unfixed tree, F20/C03) are outside the alphabet",
 ]
-NONTRIVIAL_FLOOR = {"quick": 20000, "thorough": 200000}
+NONTRIVIAL_FLOOR = {"quick": 10000, "thorough": 100000}
 BUDGET_S = {"quick": 120, "thorough": 1500}
 
 DEPTH = {"quick": 4, "thorough": 6}
